@@ -47,7 +47,7 @@ def check(run, model, tier):
         raise AnalysisError('SignalSource.__init__/append not found')
     for f in src.methods.values():
         run.touch(f)
-    # ---- REG.numbering: literal table
+    # ---- REG.numbering: the built-in table (decided on the evaluated constructor further down; the literal-table form is the fall-back)
     stores = []
     for st in init.node.body:
         if isinstance(st, ast.Assign) and len(st.targets) == 1 and isinstance(st.targets[0], ast.Subscript) \
@@ -55,27 +55,29 @@ def check(run, model, tier):
             stores.append(st)
     names = [const_str(s.targets[0].slice) for s in stores]
     nums = [s.value.value if isinstance(s.value, ast.Constant) else None for s in stores]
-    run.floor('built-in signal literals', len(stores), 10)
-    ok = nums == list(range(1, len(nums) + 1)) and None not in names and len(set(names)) == len(names)
-    run.inst('REG.numbering', init, 'built-ins numbered 1..%d' % len(nums), ok,
-             '' if ok else 'built-in signals are not the distinct names numbered consecutively from 1: %s' % list(zip(names, nums)), obligation=True)
     required = {'ENTRY_SIGNAL', 'EXIT_SIGNAL', 'INIT_SIGNAL', 'REFLECTION_SIGNAL', 'EMPTY_SIGNAL', 'SEARCH_FOR_SUPER_SIGNAL',
                 'STOP_FABRIC_SIGNAL', 'STOP_ACTIVE_OBJECT_SIGNAL', 'SUBSCRIBE_META_SIGNAL', 'PUBLISH_META_SIGNAL'}
-    run.inst('REG.numbering', init, 'the ten built-in names', set(names) == required,
-             'built-in set differs from the documented ten inner signals: %s' % sorted(set(names) ^ required), obligation=True)
-    # highest_inner_signal = len(self) after the last literal and before anything else stores
-    his = [st for st in init.node.body if isinstance(st, ast.Assign) and any(dotted(t) == init.params[0] + '.highest_inner_signal' for t in st.targets)]
-    ok = False
-    if len(his) == 1 and stores:
-        h = his[0]
-        is_len = isinstance(h.value, ast.Call) and isinstance(h.value.func, ast.Name) and h.value.func.id == 'len' \
-            and h.value.args and isinstance(h.value.args[0], ast.Name) and h.value.args[0].id == init.params[0]
-        is_const = isinstance(h.value, ast.Constant) and h.value.value == len(stores)
-        after_all = h.lineno > max(s.lineno for s in stores)
-        ok = (is_len or is_const) and after_all
-    run.inst('REG.numbering', init, 'highest_inner_signal = len(self) after the built-ins', ok,
-             '' if ok else 'highest_inner_signal is not the number of built-ins taken directly after they are stored: '
-             'user signals would be classified as inner signals or built-ins as user signals', obligation=True)
+
+    def literal_table_rules():
+        run.floor('built-in signal literals', len(stores), 10)
+        ok = nums == list(range(1, len(nums) + 1)) and None not in names and len(set(names)) == len(names)
+        run.inst('REG.numbering', init, 'built-ins numbered 1..%d' % len(nums), ok,
+                 '' if ok else 'built-in signals are not the distinct names numbered consecutively from 1: %s' % list(zip(names, nums)), obligation=True)
+        run.inst('REG.numbering', init, 'the ten built-in names', set(names) == required,
+                 'built-in set differs from the documented ten inner signals: %s' % sorted(set(names) ^ required), obligation=True)
+        # highest_inner_signal = len(self) after the last literal and before anything else stores
+        his = [st for st in init.node.body if isinstance(st, ast.Assign) and any(dotted(t) == init.params[0] + '.highest_inner_signal' for t in st.targets)]
+        ok = False
+        if len(his) == 1 and stores:
+            h = his[0]
+            is_len = isinstance(h.value, ast.Call) and isinstance(h.value.func, ast.Name) and h.value.func.id == 'len' \
+                and h.value.args and isinstance(h.value.args[0], ast.Name) and h.value.args[0].id == init.params[0]
+            is_const = isinstance(h.value, ast.Constant) and h.value.value == len(stores)
+            after_all = h.lineno > max(s.lineno for s in stores)
+            ok = (is_len or is_const) and after_all
+        run.inst('REG.numbering', init, 'highest_inner_signal = len(self) after the built-ins', ok,
+                 '' if ok else 'highest_inner_signal is not the number of built-ins taken directly after they are stored: '
+                 'user signals would be classified as inner signals or built-ins as user signals', obligation=True)
     # ---- append: presence test dominates the store, store value len(self)+1
     g = cfg_of(append)
     selfn, namep = append.params[0], append.params[1]
@@ -128,7 +130,7 @@ def check(run, model, tier):
                     continue
                 run.inst('LAYER.registry-writers', f, norm(n.func), False,
                          'the signal registry is mutated through %s: numbering is no longer append-only' % n.func.attr, node=n)
-    run.floor('registry store sites found in the package', n_sites, 11)
+    run.floor('registry store sites found in the package', n_sites, 2)
     # base class must not override item assignment in a way we cannot see
     for k in model.mro(src)[1:]:
         for nm in ('__setitem__', '__delitem__', '__len__', 'keys', 'values', 'items'):
@@ -183,6 +185,14 @@ def check(run, model, tier):
     eval_numbering = None
     worlds = []
     try:
+        base = built_world([])
+        bnames = list(base.keys())
+        okb = list(base.values()) == list(range(1, len(base) + 1))
+        run.inst('REG.numbering-eval', init, 'the constructed registry numbers its %d built-ins 1..%d in order' % (len(base), len(base)), okb,
+                 '' if okb else 'built-in signals are not numbered consecutively from 1: %s' % list(base.items()), obligation=True)
+        run.inst('REG.numbering-eval', init, 'the ten built-in names', set(bnames) == required,
+                 'built-in set differs from the documented ten inner signals: %s' % sorted(set(bnames) ^ required), obligation=True)
+        names = bnames
         for users in ([], ['USER_0', 'USER_1'], ['USER_0', 'USER_1', 'USER_0', 'ENTRY_SIGNAL', 'USER_2']):
             reg = built_world(users)
             want_names = list(names)
@@ -207,6 +217,8 @@ def check(run, model, tier):
                  'evaluating SignalSource.__init__ and append() raises %s' % ex_.what, obligation=True)
         worlds = []
     built = bool(worlds)
+    if not built:
+        literal_table_rules()
     for s_, want_, v_ in numbering_shape:
         if built:
             continue        # decided by REG.numbering-eval on the class's own code
